@@ -34,7 +34,8 @@ type c18Case struct {
 
 var c18Variants = []string{"own-alone", "own-then-others", "others-then-own", "own-in-second-line", "own-with-comment", "own-other-version", "own-lowercase-name-is-other",
 	"same-name-other-instance", "own-tag-as-prefix-of-longer-pseudonym", "others-only", "none", "own-in-middle-of-line",
-	"empty-member-then-own", "leading-comma-then-own", "comment-with-comma-then-own", "empty-line-then-own", "own-between-two-comments"}
+	"empty-member-then-own", "leading-comma-then-own", "comment-with-comma-then-own", "empty-line-then-own", "own-between-two-comments",
+	"own-after-long-chain", "own-deep-in-long-chain", "long-chain-others-only"}
 
 func genC18(t *tape.Tape, tier string) any {
 	c := &c18Case{}
@@ -212,6 +213,20 @@ func runC18(env *core.Env, ci any) {
 			via = []string{"", ownElem}
 		case "own-between-two-comments": // what a loop through a commenting peer looks like at the second arrival
 			via = []string{"1.1 squid-edge (squid/5.7), " + ownElem + ", 1.1 squid-edge (squid/5.7)"}
+		case "own-after-long-chain", "own-deep-in-long-chain", "long-chain-others-only": // a request that has already been through many hops
+			var long []string
+			for j := 0; j < 8+2*len(o); j++ {
+				long = append(long, fmt.Sprintf("1.1 hop%d.example", j), o[j%len(o)])
+			}
+			switch c.Variant {
+			case "own-after-long-chain":
+				via = []string{strings.Join(long, ", ") + ", " + ownElem}
+			case "own-deep-in-long-chain":
+				k := 7 + len(o)
+				via = []string{strings.Join(long[:k], ", ") + ", " + ownElem + ", " + strings.Join(long[k:], ", ")}
+			default:
+				via = []string{strings.Join(long, ", ")}
+			}
 		case "same-name-other-instance":
 			via = []string{"1.1 " + c.NameA + "-0123456789abcdef0123"}
 		case "own-lowercase-name-is-other":
@@ -271,7 +286,8 @@ func runC18(env *core.Env, ci any) {
 		}
 		isLoop := map[string]bool{"own-alone": true, "own-then-others": true, "others-then-own": true, "own-in-second-line": true, "own-with-comment": true,
 			"own-other-version": true, "own-in-middle-of-line": true, "empty-member-then-own": true, "leading-comma-then-own": true,
-			"comment-with-comma-then-own": true, "empty-line-then-own": true, "own-between-two-comments": true}[c.Variant]
+			"comment-with-comma-then-own": true, "empty-line-then-own": true, "own-between-two-comments": true,
+			"own-after-long-chain": true, "own-deep-in-long-chain": true}[c.Variant]
 		arr := w.arrivalsFor("tk2z")
 		if second.err != nil {
 			env.Fail("loop-no-response", feature+"/"+c.Variant, "no response to the crafted request: %v", second.err)
